@@ -167,6 +167,45 @@ def np_floor(ceil=False):
     return h
 
 
+def np_rint(I, st, args, kw, node):
+    used("np.rint: an integer-valued real r with |r - x| <= 1/2 (ties: unspecified which neighbour)")
+
+    def f(x):
+        x = to_real(x)
+        k = z3.Int(fresh_name("rint"))
+        r = z3.ToReal(k)
+        st.fact(z3.And(r - x <= z3.RealVal("1/2"), x - r <= z3.RealVal("1/2")))
+        return r
+    return elementwise(I, st, f, args[0])
+
+
+def np_global_rng(name):
+    def h(I, st, args, kw, node):
+        used("np.random.<fn> (GLOBAL generator): unconstrained values - not a function of any seed the code controls")
+        size = kw.get("size", None)
+        if name in ("random", "rand", "uniform", "normal"):
+            if _is_none(size) and not args:
+                return z3.Real(fresh_name("global_rng"))
+            raise Unsupported(f"np.random.{name} with a size")
+        if name in ("randint", "choice"):
+            if _is_none(size) and len(args) <= 2:
+                v = z3.Int(fresh_name("global_rng"))
+                a0 = args[0] if args else None
+                if name == "choice" and is_num(a0):
+                    st.fact(z3.And(v >= 0, v < to_z3(a0)))
+                    return v
+                if name == "choice":
+                    A = I.arr_of(a0, st)
+                    st.fact(z3.And(v >= 0, v < to_z3(A.shape[0])))
+                    return A.elem(v)
+                lo, hi = (0, args[0]) if len(args) == 1 else (args[0], args[1])
+                st.fact(z3.And(v >= to_z3(lo), v < to_z3(hi)))
+                return v
+            raise Unsupported(f"np.random.{name} with a size")
+        raise Unsupported(f"np.random.{name}")
+    return h
+
+
 def np_sign(I, st, args, kw, node):
     used("np.sign: -1 / 0 / 1")
     return elementwise(I, st, lambda x: z3.If(to_z3(x) > 0, 1, z3.If(to_z3(x) < 0, -1, 0)) if not z3.is_real(to_z3(x))
@@ -468,9 +507,9 @@ def np_unique(I, st, args, kw, node):
     a = I.arr_of(args[0], st)
     axis = kw.get("axis")
     counts = kw.get("return_counts", False)
-    for other in ("return_index", "return_inverse"):
-        if kw.get(other) not in (None, False, NONE):
-            raise Unsupported(f"np.unique({other}=True)")
+    if kw.get("return_inverse") not in (None, False, NONE):
+        raise Unsupported("np.unique(return_inverse=True)")
+    want_index = kw.get("return_index") not in (None, False, NONE)
     if a.ndim == 1 and _is_none(axis):
         rows = lambda arr, i: [arr.elem(i)]   # noqa: E731
         width = 1
@@ -521,12 +560,16 @@ def np_unique(I, st, args, kw, node):
     st.fact(z3.ForAll([i, j], z3.Implies(z3.And(inr(i), inr(j), i != j, cls(i) == cls(j)), cnt(cls(i)) > 1),
                       patterns=[z3.MultiPattern(cls(i), cls(j))]))
     ur = st.alloc(U, "arr")
+    out = [ur]
+    if want_index:
+        # the index of the FIRST occurrence of each unique row
+        st.fact(z3.ForAll([i], z3.Implies(z3.And(inr(i)), rep(cls(i)) <= i), patterns=[cls(i)]))
+        out.append(st.alloc(Arr((m,), lambda t: rep(to_z3(t)), kind="ndarray", etype="int"), "arr"))
     if counts is True or (is_z3(counts) and z3.is_true(counts)):
-        cr = st.alloc(Arr((m,), lambda t: cnt(to_z3(t)), kind="ndarray", etype="int"), "arr")
-        return VTuple([ur, cr])
-    if counts in (False, None, NONE):
-        return ur
-    raise Unsupported("np.unique(return_counts=<symbolic>)")
+        out.append(st.alloc(Arr((m,), lambda t: cnt(to_z3(t)), kind="ndarray", etype="int"), "arr"))
+    elif counts not in (False, None, NONE):
+        raise Unsupported("np.unique(return_counts=<symbolic>)")
+    return out[0] if len(out) == 1 else VTuple(out)
 
 
 # ------------------------------------------------------------------------------------------------ rng with size
@@ -587,7 +630,10 @@ lib.LIB.update({
     "np.sum": np_sum(False), "np.prod": np_sum(True), "np.cumsum": np_cumsum,
     "np.isclose": np_isclose, "np.allclose": np_allclose,
     "np.log": np_log, "np.exp": np_exp, "np.sqrt": np_sqrt, "math.log": np_log, "math.exp": np_exp, "math.sqrt": np_sqrt,
-    "np.floor": np_floor(False), "np.ceil": np_floor(True), "np.sign": np_sign, "np.square": np_square,
+    "np.floor": np_floor(False), "np.ceil": np_floor(True), "np.sign": np_sign, "np.rint": np_rint,
+    "np.random.random": np_global_rng("random"), "np.random.rand": np_global_rng("rand"),
+    "np.random.uniform": np_global_rng("uniform"), "np.random.normal": np_global_rng("normal"),
+    "np.random.randint": np_global_rng("randint"), "np.random.choice": np_global_rng("choice"), "np.square": np_square,
     "np.clip": np_clip, "np.where": np_where3, "np.full": np_full, "np.diff": np_diff, "np.append": np_append,
     "np.sort": np_sort, "np.linspace": np_linspace,
     "np.all": np_all(False), "np.any": np_all(True),
